@@ -2,7 +2,7 @@
    accepted.  The type lists are the regenerated Gen_types tables, used by computation (a changed table breaks these proofs). *)
 From stdpp Require Import strings gmap sets fin_sets pretty.
 From CG Require Import Proofs.UnrollSteps Proofs.ComposeProofs Proofs.LintProofs Proofs.UnrollLint.
-From CG Require Import Base.Api Base.Sem Model.Compose6.
+From CG Require Import Base.Api Base.Sem Base.Compose Model.Compose6.
 Open Scope string_scope.
 
 (* node types that may drive and be driven like ordinary gates *)
@@ -84,4 +84,71 @@ Proof.
   - apply (Hdis x Ha). apply elem_of_list_bind. exists b. split; [done|]. by eapply elem_of_list_lookup_2.
   - apply (Hdis x Hb). apply elem_of_list_bind. exists a. split; [done|]. by eapply elem_of_list_lookup_2.
   - eapply (IH Hrest i j); eauto.
+Qed.
+
+(* ---------- folds of connections succeed ---------- *)
+Definition drivable (i : ninfo) : Prop := n_ty i ∉ doc_no_fanin ∧ (n_ty i ∈ doc_single → n_fi i = ∅).
+Definition plain_at (g : circuit) (u : string) : Prop := ∃ t, ty g u = Some t ∧ plain_ty t.
+
+Lemma plain_at_connect g us vs g' u : connect_g g us vs = (g', Done) → plain_at g u → plain_at g' u.
+Proof.
+  intros H (t & Ht & Hp). exists t. split; [|done]. unfold ty in *. rewrite (connect_done_lookup _ _ _ _ u H).
+  destruct (g !! u) as [i|]; simpl in *; [done|done].
+Qed.
+Lemma plain_at_dom g u : plain_at g u → u ∈ dom g.
+Proof. intros (t & Ht & _). unfold ty in Ht. apply elem_of_dom. destruct (g !! u); [eauto|done]. Qed.
+
+Lemma connect_fold_total `{EqDecision X} (src tgt : X → string) (l : list X) : ∀ g,
+  NoDup l → (∀ a b, a ∈ l → b ∈ l → tgt a = tgt b → a = b) →
+  (∀ a, a ∈ l → plain_at g (src a)) →
+  (∀ a, a ∈ l → ∃ i, g !! tgt a = Some i ∧ drivable i) →
+  ∃ g', foldl (λ st x, match st with (g, Done) => connect_g g [src x] [tgt x] | _ => st end) (g, Done) l = (g', Done).
+Proof.
+  induction l as [|a l IH]; intros g Hnd Hinj Hsrc Htgt; simpl; [eauto|].
+  apply NoDup_cons in Hnd as [Hal Hnd].
+  destruct (connect_one_done g (src a) (tgt a)) as [g1 H1].
+  { apply plain_at_dom, Hsrc. by left. }
+  { apply Hsrc. by left. }
+  { destruct (Htgt a) as (i & Hi & Hd1 & Hd2); [by left|]. eauto. }
+  rewrite H1. apply IH; [done|intros; apply Hinj; set_solver| |].
+  - intros b Hb. eapply plain_at_connect; [exact H1|]. apply Hsrc. by right.
+  - intros b Hb. rewrite (connect_done_other _ _ _ _ _ H1); [apply Htgt; by right|].
+    intros E%elem_of_list_singleton. apply Hinj in E; [subst; done|by right|by left].
+Qed.
+
+Lemma conn_fold_inputs_total SC name (tgt : string → string) (l : list string) : ∀ g,
+  NoDup l → (∀ n, n ∈ l → n ∈ inputs (c_g SC)) →
+  (∀ n, n ∈ l → plain_at g (tgt n)) →
+  (∀ n, n ∈ l → ∃ i, g !! pre name n = Some i ∧ drivable i) →
+  ∃ g', foldl (conn_step SC name) (g, Done) ((λ n, (n, [tgt n])) <$> l) = (g', Done).
+Proof.
+  induction l as [|a l IH]; intros g Hnd Hin Hsrc Htgt; simpl; [eauto|].
+  apply NoDup_cons in Hnd as [Hal Hnd].
+  rewrite bool_decide_eq_true_2 by (apply Hin; by left).
+  destruct (connect_one_done g (tgt a) (pre name a)) as [g1 H1].
+  { apply plain_at_dom, Hsrc. by left. }
+  { apply Hsrc. by left. }
+  { destruct (Htgt a) as (i & Hi & Hd1 & Hd2); [by left|]. eauto. }
+  rewrite H1. apply IH; [done|intros; apply Hin; by right| |].
+  - intros b Hb. eapply plain_at_connect; [exact H1|]. apply Hsrc. by right.
+  - intros b Hb. rewrite (connect_done_other _ _ _ _ _ H1); [apply Htgt; by right|].
+    intros E%elem_of_list_singleton. apply (inj (pre name)) in E. by subst.
+Qed.
+
+(* add_subcircuit is accepted when the child has no blackboxes, its names are new and the connection fold succeeds *)
+Lemma add_subcircuit_total P SC name conns g' :
+  c_bbs SC = ∅ → (∀ n, n ∈ dom (c_g SC) → pre name n ∉ dom (c_g P)) →
+  (∀ kv, kv ∈ conns → kv.1 ∈ inputs (c_g SC) ∨ kv.1 ∈ outputs (c_g SC)) →
+  foldl (conn_step SC name) (c_g P ∪ rename (pre name) (strip_io (c_g SC)), Done) conns = (g', Done) →
+  ∃ P', add_subcircuit P SC name conns = (P', Done).
+Proof.
+  intros Hbb Hfresh Hconns Hfold. rewrite add_subcircuit_unfold.
+  rewrite Hbb, dom_empty_L, elements_empty. simpl existsb at 1. cbv iota.
+  assert (existsb (λ n, bool_decide (pre name n ∈ dom (c_g P))) (elements (dom (c_g SC))) = false) as ->.
+  { apply not_true_iff_false. intros (n & Hn%elem_of_list_In%elem_of_elements & Hb%bool_decide_eq_true)%existsb_exists. by apply (Hfresh n). }
+  assert (existsb (λ kv : string * list string, negb (bool_decide (kv.1 ∈ inputs (c_g SC))) && negb (bool_decide (kv.1 ∈ outputs (c_g SC)))) conns = false) as ->.
+  { apply not_true_iff_false. intros (kv & Hkv%elem_of_list_In & Hb)%existsb_exists.
+    apply andb_true_iff in Hb as [H1%negb_true_iff%bool_decide_eq_false H2%negb_true_iff%bool_decide_eq_false].
+    destruct (Hconns kv Hkv); done. }
+  pose proof (spliced_graph P SC name Hfresh) as Hg. cbv zeta in Hg. cbv zeta. rewrite Hg, Hfold. simpl. eauto.
 Qed.
